@@ -76,7 +76,7 @@ def out_of_domain(entry):
         vals += ["abc", 5, b"\x00\x01", b"garbage-not-avps", [1, 2], ["a"], [None], [b"\x00" * 8]]
     else:  # OctetString / UTF8String / DiameterIdentity
         if entry.get("special") == "ipv4_packed":
-            vals += ["::1", "1.2.3", "a.b.c.d"]
+            vals += ["::1", "1.2.3", "a.b.c.d", b"abc", b"", b"12345", b"\x00\x01\x0a\x00\x00\x01"]
         elif entry.get("special") == "tbcd_from_number":
             vals += []
         else:
